@@ -72,6 +72,9 @@ func c05(r *Report) propMeta {
 	r.Gate("delete-range-to-tail", tK+"ResetDE", CallEff("Keeper.DeleteDE"), []Cond{{Op: "LSS", A: []string{"field:DEQueue.Head"}, B: []string{"field:DEQueue.Tail"}, Want: true, Desc: "i < Tail with i starting at Head"}}, GateOpts{})
 	r.Gate("reset-only-after-full-loop", tK+"ResetDE", CallEff("Keeper.SetDEQueue"), []Cond{{Op: "LSS", A: []string{"field:DEQueue.Head"}, B: []string{"field:DEQueue.Tail"}, Want: false, Desc: "loop ran to i >= Tail"}}, GateOpts{})
 
+	r.Rule("C05.R6", "store-key agreement: every point read/delete addresses a written key family")
+	r.StoreKeyAgreement("store-keys", "tss", 35, nil)
+
 	return propMeta{
 		Decided: []string{
 			"R1 DE and DEQueue stores written only by SetDE/DeleteDE/SetDEQueue; DeleteDE<-{DequeueDE,ResetDE}; DequeueDE<-DequeueDEs<-AssignMembersForSigning<-InitiateNewSigningRound",
@@ -79,6 +82,7 @@ func c05(r *Report) propMeta {
 			"R3 every call path from a begin/end-block root to DequeueDE crosses a CacheContext whose writeFn is gated by err==nil (5 boundaries); all other paths end at atomic msg roots",
 			"R4 EnqueueDEs writes only under not(Tail-Head+len(des) > MaxDESize); members are eligible only if IsActive and HasDE",
 			"R5 ResetDE zeroes the queue only after the delete loop over [Head,Tail) completed",
+			"R6 every KV-store Get/Has/Delete of x/tss uses a key builder of x/tss/types that some Set of the module also uses (a probe of an iteration prefix or of a sibling family is always-empty state)",
 		},
 		Undecided: []string{"that the daemon never re-registers the same (D,E) pair (randomness)", "FIFO order as a history property beyond R2's head arithmetic"},
 		Assume:    []string{"CacheContext isolates writes until writeFn is called", "msg handlers are atomic (baseapp runTx)", "VTA resolves the bandtss/tss keeper interfaces and callback router"},
